@@ -135,6 +135,14 @@ func c17Run(c *mon.Case, hist string) {
 	}
 }
 
+func c17Sample(payload string) any {
+	var d []string
+	for i := 0; i < len(payload); i++ {
+		d = append(d, c17Ops[int(payload[i])%len(c17Ops)].String())
+	}
+	return strings.Join(d, "; ")
+}
+
 func buildC17(cfg *mon.Config) []*mon.Sub {
 	maxLen := 3
 	exh := &mon.Sub{
@@ -176,7 +184,7 @@ func buildC17(cfg *mon.Config) []*mon.Sub {
 			_ = rec
 			recMax(maxLen)
 		},
-		Exec: func(c *mon.Case) { c17Run(c, c.Payload) },
+		Exec: func(c *mon.Case) { c17Run(c, c.Payload) }, Sample: c17Sample,
 	}
 	rnd := &mon.Sub{
 		Name:  "history-random",
@@ -196,7 +204,7 @@ func buildC17(cfg *mon.Config) []*mon.Sub {
 				emit(string(b))
 			}
 		},
-		Exec: func(c *mon.Case) { c17Run(c, c.Payload) },
+		Exec: func(c *mon.Case) { c17Run(c, c.Payload) }, Sample: c17Sample,
 	}
 	tokz := &mon.Sub{
 		Name:          "tokenizer-consequence",
